@@ -175,7 +175,12 @@ def gen_block(cx, depth, scopes, tasks, n=None, top=False):
         elif k == 'cclose' and p.get('chans'):
             out.append(['cclose', rng.randrange(p['chans'])])
         elif k == 'citer' and p.get('chans') and depth > 0:
-            out.append(['citer', rng.randrange(p['chans']), rng.randint(0, 4)] + gen_block(cx, 0, scopes, tasks, rng.randint(0, 2)))
+            # (one subscription per activity at a time: no channel reads inside the loop body)
+            saved = cx.p
+            cx.p = dict(saved, weights={k: v for k, v in saved['weights'].items() if k not in ('cget', 'citer')})
+            body = gen_block(cx, 0, scopes, tasks, rng.randint(0, 2))
+            cx.p = saved
+            out.append(['citer', rng.randrange(p['chans']), rng.randint(0, 4)] + body)
         elif k == 'settracked' and p.get('tracked'):
             out.append([rng.choice(['settracked', 'addtracked']), rng.randrange(len(p['tracked'])), rng.randint(-2, 6)])
         elif k in ('borrow', 'claim') and p.get('resources') and depth > 0:
